@@ -1391,6 +1391,10 @@ func SupportedTcbLevelsFromCollateral(quote any, options *Options) (pcs.TcbLevel
 	if options == nil {
 		return pcs.TcbLevel{}, pcs.TcbLevel{}, ErrOptionsNil
 	}
+	if options.Now == nil {
+		options.Now = defaultTimeSet()
+		defer func() { options.Now = nil }()
+	}
 	if err := verifyCollateral(options); err != nil {
 		return pcs.TcbLevel{}, pcs.TcbLevel{}, err
 	}
@@ -1453,7 +1457,10 @@ func tdxQuoteV4(quote *pb.QuoteV4, options *Options) error {
 	options.pckCertExtensions = exts
 	options.chain = chain
 	if options.Now == nil {
+		// Unset means "the time of this call": do not leave it behind in the caller's options,
+		// or every later call through the same options would be judged at this instant.
 		options.Now = defaultTimeSet()
+		defer func() { options.Now = nil }()
 	}
 	return verifyEvidenceV4(quote, options)
 }
